@@ -92,9 +92,17 @@ def fleet(props=("C14",), cap=2, n_loads=3, sym=("gap", "delay", "transit"), con
                         if not r3.triggered:
                             F.soft("C14:released-item-not-offered-again", {})
                         yield r3
-                        for r in (r3, r2):
-                            it = e.get(r)
+                        it = e.get(r3)
+                        got.append((it, env.now))
+                        # a third retrieval is requested while the second is still held
+                        r4 = e.reserve_get()
+                        it = e.get(r2)
+                        got.append((it, env.now))
+                        if r4.triggered:
+                            it = e.get(r4)
                             got.append((it, env.now))
+                        else:
+                            r4.resourcename.reserve_get_cancel(r4)
                     except symx.PathStop:
                         raise
                     except Exception as ex:
@@ -258,7 +266,13 @@ def conveyor(props=("C12", "C13"), kind="cconv", acc=1, cap=3, n_items=3, consum
                             F.soft(f"C12:released-item-not-offered-again@{tag}", {})
                         yield r3
                         take(r3)
+                        # a third retrieval is requested while the second is still held
+                        r4 = e.reserve_get()
                         take(r2)
+                        if r4.triggered:
+                            take(r4)
+                        else:
+                            r4.resourcename.reserve_get_cancel(r4)
                     except symx.PathStop:
                         raise
                     except Exception as ex:
